@@ -67,6 +67,43 @@ def describe(rej):
     return f"{rej.reason} at event {rej.index}: {json.dumps(rej.event)[:300]}"
 
 
+def clones_part(chk, thorough, wd):
+    """Second half of C14: clones of a port share one connection list (PortClones.tla)."""
+    import subprocess
+    from check_seqds import tlc_behaviours
+    from framework import HARNESS
+    maxops = 7 if thorough else 6
+    beh, res = tlc_behaviours("PortClones", dict(MaxClones=3, MaxOps=maxops), ["SharedLinks"], wd, "MCp_clones", workers=12)
+    chk.add_tlc(f"PortClones[3 clones, {maxops} ops]", res)
+    ip = os.path.join(wd, "clones.in.json")
+    op = os.path.join(wd, "clones.out.ndjson")
+    with open(ip, "w") as f:
+        json.dump(dict(behaviours=[[dict(op=o["op"], c=o["c"]) for o in b] for b in beh]), f)
+    p = subprocess.run([HARNESS, "clones", ip, op], stdout=subprocess.PIPE, stderr=subprocess.PIPE, text=True,
+                       env=dict(os.environ, RUST_BACKTRACE="0"), timeout=600)
+    if p.returncode != 0:
+        raise ToolError("harness clones failed: " + p.stderr[-1500:])
+    got = [json.loads(ln) for ln in open(op)]
+    os.remove(ip)
+    os.remove(op)
+    bad = 0
+    for b, g in zip(beh, got):
+        exp = [o["reach"] for o in b]
+        if exp != g:
+            k = next(i for i in range(len(exp)) if exp[i] != g[i])
+            if bad < 3:
+                ops = [(o["op"], o["c"]) for o in b]
+                chk.violation(f"port clones: after {ops[:k]} a send through clone {b[k]['c']} reached sinks {g[k]} but "
+                              f"PortClones.tla requires {exp[k]} (every connection made through any clone so far)",
+                              dict(engine="clones", ops=ops, expected=exp, observed=g),
+                              signature=f"clones:{json.dumps(ops)}")
+            bad += 1
+    chk.traces += len(beh)
+    chk.evaluations += len(beh)
+    if beh:
+        chk.sample(dict(kind="connect/send/clone sequence on clones of an Output", behaviour=beh[len(beh) // 2]))
+
+
 def run(prop, tier, seed):
     cfg = PROPS[prop]
     chk = Check(prop, tier, seed)
@@ -147,6 +184,8 @@ def run(prop, tier, seed):
                         break
             t = allruns[len(allruns) // 3]
             chk.sample(dict(source=t[0].get("src"), bench=b["name"], header=t[0], trace=t[1:16]))
+    if prop == "C14":
+        clones_part(chk, thorough, wd)
     chk.exhaustive = all_exhausted
     chk.assumptions = TRUSTED + [
         "wake-ups, the task state machine and the pool protocol are not modelled at this layer (Channel/Task/Pool "
